@@ -19,25 +19,31 @@ pub(crate) fn impl_inverse_uint_scale(n: &BigUint, scale: i64, ctx: &Context) ->
     let mut running_result = next_iteration(guess);
     debug_assert!(!running_result.is_zero(), "Zero detected in inverse calculation of {}e{}", n, -scale);
 
-    let mut prev_result = BigDecimal::one();
-    let mut result = BigDecimal::zero();
+    // Newton's iteration converges quadratically: iterate until the value stops
+    // changing at the working precision (two digits more than requested), then round.
+    // (Comparing the *rounded* values can stop too early when few digits are requested.)
+    let working_precision = max_precision + 2;
+    let max_iterations = 64 + 2 * (64 - working_precision.leading_zeros() as u64);
 
-    // TODO: Prove that we don't need to arbitrarily limit iterations
-    // and that convergence can be calculated
-    while prev_result != result {
-        // store current result to test for convergence
-        prev_result = result;
+    let mut prev_running = BigDecimal::zero();
+    let mut prev_prev_running = BigDecimal::zero();
+    for _ in 0..max_iterations {
+        running_result = next_iteration(running_result).with_prec(working_precision);
 
-        // calculate next iteration
-        running_result = next_iteration(running_result).with_prec(max_precision + 2);
-
-        // 'result' has clipped precision, 'running_result' has full precision
-        result = if running_result.digits() > max_precision {
-            running_result.with_precision_round(ctx.precision(), ctx.rounding_mode())
-        } else {
-            running_result.clone()
-        };
+        // converged, or alternating between two neighbouring values
+        if running_result == prev_running || running_result == prev_prev_running {
+            break;
+        }
+        prev_prev_running = prev_running;
+        prev_running = running_result.clone();
     }
+
+    // 'result' has clipped precision, 'running_result' has full precision
+    let result = if running_result.digits() > max_precision {
+        running_result.with_precision_round(ctx.precision(), ctx.rounding_mode())
+    } else {
+        running_result
+    };
 
     return result;
 }
